@@ -957,6 +957,79 @@ Definition ok_script_ret (l : lang) (actual : list (spec * aval)) (obs : option 
                   else match obs with None => true | Some _ => false end
   end.
 
+(* ------------------------------------------------------------------ the spec list of one function: writer = readers *)
+(* utils/filter.c: add_arg_spec (a spec of the same class and key replaces the fields of the old one and keeps its
+   place, otherwise it is appended), update_trigger (all specs of one option), update_filter ("ignore auto-args if it
+   already has argspec": an automatic argument / return value spec is dropped as a whole once the function has an
+   explicit one of that direction).  libmcount (mcount_trigger_init) and every reader (open_data_file ->
+   setup_fstack_args) apply: explicit -A, explicit -R, then - with --auto-args - the automatic argument specs and the
+   automatic return value specs. *)
+Definition same_key (a b : spec) : bool :=
+  match s_type a, s_type b with
+  | TIndex, TIndex | TFloat, TFloat => s_idx a =? s_idx b
+  | TReg, TReg | TStack, TStack => (s_u a =? s_u b)%Z
+  | _, _ => false
+  end.
+Fixpoint add_arg_spec (l : list spec) (a : spec) : list spec :=
+  match l with
+  | [] => [a]
+  | o :: r =>
+      if same_key a o
+      then {| s_idx := s_idx o; s_fmt := s_fmt a; s_size := s_size a; s_type := s_type a; s_u := s_u a;
+              s_regs := s_regs a; s_name := s_name a |} :: r
+      else o :: add_arg_spec r a
+  end.
+(* the same with the exact-match mark of each list element: a spec that came from a regex pattern does not replace one
+   that came from the function's exact name ("do not overwrite exact match by regex match") *)
+Fixpoint add_arg_spec_x (l : list (spec * bool)) (a : spec) (exact : bool) : list (spec * bool) :=
+  match l with
+  | [] => [(a, exact)]
+  | (o, oex) :: r =>
+      if same_key a o
+      then (if exact || negb oex
+            then ({| s_idx := s_idx o; s_fmt := s_fmt a; s_size := s_size a; s_type := s_type a; s_u := s_u a;
+                     s_regs := s_regs a; s_name := s_name a |}, exact)
+            else (o, oex)) :: r
+      else (o, oex) :: add_arg_spec_x r a exact
+  end.
+(* all options that match one function, in the order given: (exact name?, specs) *)
+Definition merge_opts (opts : list (bool * list spec)) : list spec :=
+  map fst (fold_left (fun l o => fold_left (fun l' a => add_arg_spec_x l' a (fst o)) (snd o) l) opts []).
+Definition zlist_eqb (a b : list Z) : bool :=
+  (length a =? length b)%nat && forallb (fun p => (fst p =? snd p)%Z) (combine a b).
+Definition type_eqb (a b : atype) : bool :=
+  match a, b with TIndex, TIndex | TFloat, TFloat | TReg, TReg | TStack, TStack => true | _, _ => false end.
+Definition spec_eqb (a b : spec) : bool :=
+  (s_idx a =? s_idx b) && fmt_eqb (s_fmt a) (s_fmt b) && (s_size a =? s_size b) && type_eqb (s_type a) (s_type b) &&
+  (match s_type a with TReg | TStack => (s_u a =? s_u b)%Z | _ => true end) &&
+  (match s_fmt a with FStruct => zlist_eqb (s_regs a) (s_regs b) | _ => true end) && list_eqb (s_name a) (s_name b).
+Fixpoint specs_eqb (a b : list spec) : bool :=
+  match a, b with [] , [] => true | x :: a', y :: b' => spec_eqb x y && specs_eqb a' b' | _, _ => false end.
+Record entry := { e_args : bool; e_ret : bool; e_specs : list spec }.     (* TRIGGER_FL_ARGUMENT / _RETVAL, the list *)
+Definition entry0 : entry := {| e_args := false; e_ret := false; e_specs := [] |}.
+(* one option (the specs of one direction for this function); auto: it comes from --auto-args *)
+Definition opt_apply (auto is_ret : bool) (specs : list spec) (e : entry) : entry :=
+  match specs with
+  | [] => e
+  | _ => if auto && (if is_ret then e_ret e else e_args e) then e
+         else {| e_args := e_args e || negb is_ret; e_ret := e_ret e || is_ret;
+                 e_specs := fold_left add_arg_spec specs (e_specs e) |}
+  end.
+(* explicit -A specs, explicit -R specs, automatic argument specs, automatic return value specs of one function *)
+Record fopts := { o_ea : list spec; o_er : list spec; o_aa : list spec; o_ar : list spec }.
+(* libmcount/mcount.c mcount_trigger_init *)
+Definition writer_entry (o : fopts) : entry :=
+  opt_apply true true (o_ar o) (opt_apply true false (o_aa o) (opt_apply false true (o_er o) (opt_apply false false (o_ea o) entry0))).
+(* utils/data-file.c open_data_file: setup_fstack_args(argspec, retspec), then - if recorded with --auto-args -
+   setup_fstack_args(autoarg, autoret) with setting.auto_args = true *)
+Definition reader_entry (o : fopts) : entry :=
+  let explicit := opt_apply false true (o_er o) (opt_apply false false (o_ea o) entry0) in
+  opt_apply true true (o_ar o) (opt_apply true false (o_aa o) explicit).
+(* the reader with the two steps exchanged (automatic specs first, as in seed C09-6) *)
+Definition reader_entry_auto_first (o : fopts) : entry :=
+  let automatic := opt_apply true true (o_ar o) (opt_apply true false (o_aa o) entry0) in
+  opt_apply false true (o_er o) (opt_apply false false (o_ea o) automatic).
+
 (* test cases as the driver writes them: the specs are taken from the call *)
 Definition judge_of (c : call) (o : observation) (aargs aret : list aval) : judged :=
   {| j_args := combine (filter (fun s => negb (s_idx s =? 0)) (c_specs c)) aargs;
